@@ -2,6 +2,7 @@
 package main
 
 import (
+	"regexp"
 	"bytes"
 	"context"
 	"crypto/sha256"
@@ -202,6 +203,8 @@ func jsonbNormalise(b []byte) ([]byte, error) {
 	return bytes.TrimSpace(buf.Bytes()), nil
 }
 
+var digitsRe = regexp.MustCompile(`[0-9]+`)
+
 func guard(f func()) (sig string) {
 	defer func() {
 		if e := recover(); e != nil {
@@ -213,7 +216,7 @@ func guard(f func()) (sig string) {
 					break
 				}
 			}
-			sig = fmt.Sprintf("panic:%v@%s", e, frame)
+			sig = fmt.Sprintf("panic:%s@%s", digitsRe.ReplaceAllString(fmt.Sprint(e), "N"), frame) // values blanked: one signature per failure kind
 		}
 	}()
 	f()
